@@ -41,7 +41,9 @@ func (r *DescribeLogDirsResponse) decode(pd packetDecoder, version int16) error 
 		return err
 	}
 
-	r.LogDirs = make([]DescribeLogDirsResponseDirMetadata, n)
+	if n >= 0 {
+		r.LogDirs = make([]DescribeLogDirsResponseDirMetadata, n)
+	}
 	for i := 0; i < n; i++ {
 		dir := DescribeLogDirsResponseDirMetadata{}
 		if err := dir.decode(pd, version); err != nil {
@@ -115,7 +117,9 @@ func (r *DescribeLogDirsResponseDirMetadata) decode(pd packetDecoder, version in
 		return err
 	}
 
-	r.Topics = make([]DescribeLogDirsResponseTopic, n)
+	if n >= 0 {
+		r.Topics = make([]DescribeLogDirsResponseTopic, n)
+	}
 	for i := 0; i < n; i++ {
 		t := DescribeLogDirsResponseTopic{}
 
@@ -163,7 +167,9 @@ func (r *DescribeLogDirsResponseTopic) decode(pd packetDecoder, version int16) e
 	if err != nil {
 		return err
 	}
-	r.Partitions = make([]DescribeLogDirsResponsePartition, n)
+	if n >= 0 {
+		r.Partitions = make([]DescribeLogDirsResponsePartition, n)
+	}
 	for i := 0; i < n; i++ {
 		p := DescribeLogDirsResponsePartition{}
 		if err := p.decode(pd, version); err != nil {
